@@ -245,8 +245,11 @@ class ConvexSpheropolyhedron(Shape3D):
         # Compute extrusions of the faces
         extruded_faces = []
         for face, normal in zip(self.polyhedron.faces, self.polyhedron.normals):
-            base_vertices = self.polyhedron.vertices[face]
-            extruded_vertices = base_vertices + self.radius * normal
+            # The slab is extruded to both sides of the face: every point of it is
+            # within the rounding radius of the face, and points lying (up to
+            # round-off) on the face itself are then safely inside the slab.
+            base_vertices = self.polyhedron.vertices[face] - self.radius * normal
+            extruded_vertices = base_vertices + 2 * self.radius * normal
             extruded_faces.append(
                 ConvexPolyhedron([*base_vertices, *extruded_vertices])
             )
